@@ -221,7 +221,7 @@ fn canon_frag(fm: &FragMovie) -> Option<(String, String)> {
 
 pub fn run(args: &Args) -> i32 {
     let mut rep = Report::new(args, true);
-    let nmovies = args.scale(960, 16_000);
+    let nmovies = args.scale(3_000, 40_000);
     for i in 0..nmovies {
         if !args.mine(i) {
             continue;
